@@ -1,0 +1,32 @@
+//go:build verif
+
+package sonic
+
+import "github.com/talostrading/sonic/internal"
+
+// VerifRegistered reports whether the IO context currently keeps a slot registered for fd (the
+// registry that keeps owners of in-flight operations reachable). Verification harness only.
+func (ioc *IO) VerifRegistered(fd int) bool {
+	if fd < 0 {
+		return false
+	}
+	if fd >= len(ioc.pending.static) {
+		_, ok := ioc.pending.dynamic[fd]
+		return ok
+	}
+	return ioc.pending.static[fd] != nil
+}
+
+// VerifSlotEvents returns the interest set recorded in the slot registered for fd (0 if none).
+func (ioc *IO) VerifSlotEvents(fd int) int {
+	var slot *internal.Slot
+	if fd >= 0 && fd < len(ioc.pending.static) {
+		slot = ioc.pending.static[fd]
+	} else if fd >= 0 {
+		slot = ioc.pending.dynamic[fd]
+	}
+	if slot == nil {
+		return 0
+	}
+	return int(slot.Events)
+}
